@@ -5,6 +5,7 @@ CONSTANTS
   WUDS = @WUDS@
   IWS = @IWS@
   HWRITES = @HWRITES@
+  CLS = @CLS@
   MaxSteps = @STEPS@
   MaxNoise = @NOISE@
 INIT GInit
